@@ -16,6 +16,7 @@ KINDS = {
     "scases": ("library-model(SplitHostPort/JoinHostPort/URL.Hostname,Port)", False),
     "pcases": ("pac-first-entry", True),
     "rcases": ("connect-to", True),
+    "kcases": ("connect-to-flag-syntax", True),
     "dcases": ("dialer-retry-loop", True),
     "lcases": ("localhost-classifier(pool)", True),
     "hcases": ("pac-resolver-history-independence", True),
@@ -111,6 +112,8 @@ def classify(kind, case):
             return "no-upstream"
         if kind == "rcases":
             return "rules=%d" % len(case.get("rules", []))
+        if kind == "kcases":
+            return "colons=%d" % case.get("in", "").count(":")
         if kind == "dcases":
             return "rules=%d,attempts=%s" % (len(case.get("rules") or []), case.get("attempts"))
         if kind == "hcases":
@@ -259,7 +262,7 @@ def run(ctx):
         "evaluations": total,
         "distinct_nontrivial": nontriv,
         "rule": "scases: every string of length <= %s over a 7-symbol alphabet (exhaustive) + random longer strings + pools; lcases: "
-                "isLocalhost on a fixed pool of ~40 host spellings against a small reference; dcases: the real Dialer with rule lists x Retry.Attempts (-1..4) x arbitrary outcome patterns; hcases: look-up sequences on one "
+                "isLocalhost on a fixed pool of ~40 host spellings against a small reference; kcases: ParseHostPortPair on every string of length <= 4 (quick) / 5 (thorough) over {a,f,1,:,[,],.,-} + field pools + mutations; dcases: the real Dialer with rule lists x Retry.Attempts (-1..4) x arbitrary outcome patterns; hcases: look-up sequences on one "
                 "PAC resolver / pool against fresh resolvers; pcases: every sequence of "
                 "<= %s tokens from a 21-token PAC vocabulary (exhaustive) + sampled longer token sequences + keyword x host:port pools + grammar-generated and "
                 "mutated return strings; rcases: every single connect-to rule over small pools x 12 addresses (exhaustive) + "
